@@ -44,10 +44,43 @@ func (b *zzBuilder) join(depth, maxKids int) error {
 }
 
 func (b *zzBuilder) node(depth int) error {
-	if zzChoose(4) == 0 {
+	switch zzChoose(5) {
+	case 0:
 		return b.leaf() // a bare leaf, not wrapped in any join
+	case 1:
+		return b.spine(depth + 2) // deep and narrow
 	}
-	return b.join(depth, 3)
+	return b.join(depth, 3) // shallow and wide
+}
+
+func (b *zzBuilder) nilOrLeaf() error {
+	if zzChoose(2) == 0 {
+		return nil
+	}
+	return b.leaf()
+}
+
+// spine builds a deep, narrow tree: every level is a join of one sub-join
+// with an optional nil/leaf sibling on either side; the innermost level is a
+// join of 1-2 nil/leaf children. Depth is what the wide generator cannot
+// afford: flattening must recurse through every level and an early exit must
+// propagate through all of them.
+func (b *zzBuilder) spine(levels int) error {
+	if levels <= 1 {
+		if zzChoose(2) == 0 {
+			return errors.Join(b.nilOrLeaf())
+		}
+		return errors.Join(b.nilOrLeaf(), b.nilOrLeaf())
+	}
+	var kids []error
+	if zzChoose(2) == 1 {
+		kids = append(kids, b.nilOrLeaf())
+	}
+	kids = append(kids, b.spine(levels-1))
+	if zzChoose(2) == 1 {
+		kids = append(kids, b.nilOrLeaf())
+	}
+	return errors.Join(kids...)
 }
 
 // C19 — All yields exactly the leaves, each once, in order, and honours early exit.
